@@ -157,30 +157,77 @@ fn check_llr(c: &LlrCase, p: &mut Probe) -> Check {
 pub struct SeqCase {
     pub bits: Vec<u8>,
     pub sigma: Fx,
+    /// memory layout of the bit array handed to the modulators
+    #[serde(default)]
+    pub layout: u8,
+    /// pseudo-noise added to the symbols for the value-level comparison of whole sequences
+    #[serde(default)]
+    pub salt: u32,
 }
 
 fn seq_strategy(_t: Tier) -> BoxedStrategy<SeqCase> {
     (0usize..40, prop_oneof![(-2.0f64..2.0).prop_map(|l| 10f64.powf(l)), 0.05f64..1.5])
-        .prop_flat_map(|(sym, sigma)| (proptest::collection::vec(0u8..=1, 3 * sym), Just(sigma)))
-        .prop_map(|(bits, sigma)| SeqCase { bits, sigma: Fx(sigma) })
+        .prop_flat_map(|(sym, sigma)| (proptest::collection::vec(0u8..=1, 3 * sym), Just(sigma), 0..LAYOUTS, any::<u32>()))
+        .prop_map(|(bits, sigma, layout, salt)| SeqCase { bits, sigma: Fx(sigma), layout, salt })
         .boxed()
 }
 
 fn check_seq(c: &SeqCase, p: &mut Probe) -> Check {
     let sigma = c.sigma.0;
-    let s = guarded(|| Psk8Modulator::new().modulate(&gf(&c.bits))).map_err(|e| Fail::new("panic", format!("8PSK modulate panicked: {e}")))?;
+    let lay = c.layout;
+    let gbits: Vec<GF2> = gf(&c.bits).to_vec();
+    let s = guarded(|| with_layout(&gbits, GF2::one(), lay, |v| Psk8Modulator::new().modulate(&v))).map_err(|e| Fail::new("panic", format!("8PSK modulate panicked (bit array layout {}): {e}", layout_name(lay))))?;
     ensure!(s.len() * 3 == c.bits.len(), "symbol-count", "{} bits give {} symbols", c.bits.len(), s.len());
     for (k, sym) in s.iter().enumerate() {
         let want = own_point([c.bits[3 * k], c.bits[3 * k + 1], c.bits[3 * k + 2]]);
-        ensure!((sym - want).norm() < 1e-15, "bit-order", "symbol {k} is {sym}, bits {:?} map to {want}", &c.bits[3 * k..3 * k + 3]);
+        ensure!((sym - want).norm() < 1e-15, "bit-order", "symbol {k} is {sym}, bits {:?} map to {want} (bit array layout {})", &c.bits[3 * k..3 * k + 3], layout_name(lay));
     }
     let l = Psk8Demodulator::from_noise_sigma(sigma).demodulate(&s);
     let hd: Vec<u8> = l.iter().map(|&x| u8::from(x <= 0.0)).collect();
     ensure!(hd == c.bits, "psk8-roundtrip", "8PSK hard decisions {hd:?} differ from the bits {:?} (sigma {sigma})", c.bits);
-    let s = BpskModulator::new().modulate(&gf(&c.bits));
-    let l = BpskDemodulator::from_noise_sigma(sigma).demodulate(&s);
+    // whole noisy sequences, value by value: every symbol's LLRs equal the own exact posterior
+    // log-ratios of that sample alone (no dependence on position in, or length of, the slice)
+    let unit = |x: u64| (x >> 11) as f64 / (1u64 << 53) as f64 - 0.5;
+    let noisy: Vec<Complex<f64>> = s.iter().enumerate().map(|(k, z)| {
+        let a = splitmix(c.salt as u64 ^ (k as u64) << 20);
+        let b = splitmix(a);
+        z + Complex::new(unit(a), unit(b)) * (3.0 * sigma).min(50.0)
+    }).collect();
+    let dem = Psk8Demodulator::from_noise_sigma(sigma);
+    let ln = guarded(|| dem.demodulate(&noisy)).map_err(|e| Fail::new("panic", format!("8PSK demodulate panicked: {e}")))?;
+    ensure!(ln.len() == 3 * noisy.len(), "llr-count", "{} symbols give {} LLRs", noisy.len(), ln.len());
+    let sc = 1.0 / (sigma * sigma);
+    for (k, y) in noisy.iter().enumerate() {
+        if y.norm() * sc > 1e12 {
+            continue;
+        }
+        let tol = 64.0 * f64::EPSILON * (y.norm() * sc + 1.0);
+        for b in 0..3 {
+            let want = own_psk8_llr(*y, sigma, b);
+            ensure!((ln[3 * k + b] - want).abs() <= tol, "psk8-llr-seq", "sequence of {} symbols, sigma {sigma:e}: LLR of bit {b} of symbol {k} (r = {y}) is {} but log P(b=0|r)/P(b=1|r) = {want}", noisy.len(), ln[3 * k + b]);
+        }
+    }
+    // the same demodulator object on a second slice of another length
+    if noisy.len() >= 2 {
+        let part = &noisy[1..];
+        let lp = dem.demodulate(part);
+        ensure!(lp.len() == 3 * part.len() && lp.iter().zip(&ln[3..]).all(|(a, b)| a.to_bits() == b.to_bits()), "psk8-llr-slice-dependence", "the LLRs of a symbol depend on where in the slice it stands (sequence of {} symbols vs its tail)", noisy.len());
+    }
+    let s = guarded(|| with_layout(&gbits, GF2::one(), lay, |v| BpskModulator::new().modulate(&v))).map_err(|e| Fail::new("panic", format!("BPSK modulate panicked (bit array layout {}): {e}", layout_name(lay))))?;
+    ensure!(s.len() == c.bits.len() && s.iter().zip(&c.bits).all(|(x, &b)| *x == if b == 1 { 1.0 } else { -1.0 }), "bpsk-map", "BPSK modulator maps {:?} to {s:?} (bit array layout {})", c.bits, layout_name(lay));
+    let bd = BpskDemodulator::from_noise_sigma(sigma);
+    let l = bd.demodulate(&s);
     let hd: Vec<u8> = l.iter().map(|&x| u8::from(x <= 0.0)).collect();
     ensure!(hd == c.bits, "bpsk-roundtrip", "BPSK hard decisions {hd:?} differ from the bits {:?}", c.bits);
+    let noisy_b: Vec<f64> = s.iter().enumerate().map(|(k, x)| x + unit(splitmix(c.salt as u64 ^ 0x77 ^ (k as u64) << 24)) * (3.0 * sigma).min(50.0)).collect();
+    let lb = bd.demodulate(&noisy_b);
+    ensure!(lb.len() == noisy_b.len(), "llr-count", "BPSK: {} symbols give {} LLRs", noisy_b.len(), lb.len());
+    for (k, y) in noisy_b.iter().enumerate() {
+        let want = -2.0 * y * sc;
+        ensure!((lb[k] - want).abs() <= 4.0 * f64::EPSILON * want.abs(), "bpsk-llr-seq", "BPSK sequence of {} symbols: LLR {k} at r = {y}, sigma {sigma:e} is {} but -2r/sigma^2 = {want}", noisy_b.len(), lb[k]);
+    }
+    p.class_if(lay % LAYOUTS != 0, "non-standard-layout");
+    p.class_if(c.bits.len() / 3 % 4 != 0, "symbol-count-not-multiple-of-4");
     if c.bits.len() >= 6 {
         p.nontrivial();
     }
@@ -208,7 +255,7 @@ pub fn property() -> Property {
             }),
             Box::new(Sub {
                 name: "roundtrip",
-                rule: "bit sequences of 0..39 symbols: every symbol equals the own mapping of its three bits in order (bit order within a symbol), hard decisions (LLR <= 0 -> 1) of the demodulated noiseless symbols return the sequence for any sigma, for 8PSK and BPSK; non-trivial = at least two symbols",
+                rule: "bit sequences of 0..39 symbols: every symbol equals the own mapping of its three bits in order (bit order within a symbol), hard decisions (LLR <= 0 -> 1) of the demodulated noiseless symbols return the sequence for any sigma, for 8PSK and BPSK; the bit array is handed to the modulators in six memory layouts (owned, reversed view, strided views, offset sub-range); the whole sequence plus bounded pseudo-noise is demodulated in one call and every LLR compared with the own exact posterior log-ratio of its sample (8PSK: 64 eps (|r|/sigma^2 + 1), BPSK: 4 eps relative), and the same demodulator object on the tail of the slice returns bit-identical values; non-trivial = at least two symbols",
                 cases: |t| t.pick(300_000, 10_000_000),
                 strategy: seq_strategy,
                 check: check_seq,
